@@ -138,6 +138,12 @@ def timer_cases(q):
     cases.append(("case", T + ["prog 31 tcancel 0 ; sched 0 once 400 30", "sched 0 once 20 30", "sched 1 once 20 31", "sleep 40", "pollone", "pollone", "tcancel 0"]))
     cases.append(("case", T + ["prog 30 tclose 1", "sched 0 once 20 30", "sched 1 once 20 31", "sleep 40", "pollone", "pollone"]))
     cases.append(("case", T + ["prog 30 tcancel 1", "sched 0 once 20 30", "sched 1 once 20 31", "sleep 40", "pollone", "pollone"]))
+    # delays with a sub-millisecond part (below one millisecond, and just above whole milliseconds): the timer has to fire once the
+    # delay has passed, once, and a repeating one keeps firing
+    for us in (700, 1, 999, 1900, 2500, 30500):
+        cases.append(("case", T + ["schedus 0 once %d 30" % us, "sleep 45", "pollone", "pollone", "schedus 0 once %d 31" % us, "sleep 45", "pollone", "tcancel 0"]))
+    cases.append(("case", T + ["schedus 0 rep 20500 30", "sleep 30", "pollone", "sleep 30", "pollone", "sleep 30", "pollone", "tcancel 0", "sleep 30", "pollone"]))
+    cases.append(("case", T + ["prog 30 schedus 1 once 700 31", "schedus 0 once 1500 30", "sleep 40", "pollone", "sleep 40", "pollone", "pollone", "tcancel 1"]))
     # single-schedule rule, revive after close, cancel after close
     cases.append(("case", T + ["sched 0 once 200 30", "sched 0 once 20 32", "sleep 40", "pollone", "tcancel 0", "sched 0 once 20 32", "sleep 40", "pollone"]))
     cases.append(("case", T + ["sched 0 once 20 30", "tclose 0", "sched 0 once 20 30", "tcancel 0", "sched 0 once 20 30", "sleep 40", "pollone"]))
@@ -312,6 +318,17 @@ def batch_cases():
     for who, prog in ((10, "close 0"), (20, "close 0"), (10, "close 1"), (10, "start read 0 4 10 ; close 0"), (10, "start write 1 4 21")):
         cases.append(("case", setup(["pkt", "pkt"]) + ["prog %d %s" % (who, prog), "start read 0 4 10", "start read 1 4 11", "depth 32", "start write 0 4 20", "depth 0",
                                                        "peer 0 data 4", "peer 1 data 4", "pollone", "pollone", "close 0", "close 1", "pollone"]))
+    # writes that really block (the harness fills the send buffer behind the object's back) and complete after the peer drained it;
+    # cancel / close / a second direction / handlers while the write is blocked
+    for kind in ("sock", "pipew"):
+        base = setup([kind]) + ["peer 0 fill", "start write 0 4 20", "pollone"]
+        cases.append(("case", base + ["peer 0 drain 0", "pollone", "pollone", "close 0"]))
+        cases.append(("case", base + ["cancel 0", "peer 0 drain 0", "pollone", "close 0"]))
+        cases.append(("case", base + ["close 0", "peer 0 drain 0", "pollone"]))
+        cases.append(("case", setup([kind]) + ["prog 20 start write 0 4 21", "peer 0 fill", "start writeall 0 4 20", "peer 0 drain 0", "pollone", "pollone", "close 0"]))
+    for who, prog in ((10, "cancel 0"), (10, "close 0"), (20, "cancel 0"), (10, "start write 0 4 21"), (20, "start read 0 4 11")):
+        cases.append(("case", setup(["sock"]) + ["prog %d %s" % (who, prog), "peer 0 fill", "start read 0 4 10", "start write 0 4 20", "peer 0 data 4",
+                                                 "peer 0 drain 0", "pollone", "pollone", "cancel 0", "close 0"]))
     # nothing ready: timeout, not success
     cases.append(("case", setup(["sock"]) + ["pollone", "start read 0 4 10", "pollone", "cancel 0", "pollone"]))
     return cases
